@@ -63,6 +63,10 @@ def cases():
         yield {"f": "from_generator", "xs": xs, "raise_at": None}
         for k in range(len(xs) + 1):
             yield {"f": "from_generator", "xs": xs, "raise_at": k}
+    for xs in ([1, 2, 3], [None, 0, "", 4]):
+        for k in range(len(xs)):
+            # the subscriber disposes from inside on_next of element k: the user's iterator is not asked again (C03 / C14)
+            yield {"f": "dispose_in_on_next", "xs": xs, "at": k}
     for v in (None, 0, "x"):
         yield {"f": "return_value", "v": v}
         for n in (0, 1, 3):
@@ -115,6 +119,30 @@ def run(c):
         k = c["raise_at"]
         want = [("N", v) for v in (c["xs"] if k is None else c["xs"][:k])] + ([("C",)] if k is None else [("E", "Boom")])
         return None if untimed(out) == want and not esc else {"got": untimed(out), "expected": want, "escaped": esc}
+    if f == "dispose_in_on_next":
+        from reactivex.scheduler import VirtualTimeScheduler
+        s = VirtualTimeScheduler()
+        pulls, got, holder = [], [], {}
+
+        def gen():
+            for i, x in enumerate(c["xs"]):
+                pulls.append(i)
+                yield x
+
+        def on_next(v):
+            got.append(v)
+            if len(got) == c["at"] + 1:
+                holder["sub"].dispose()
+        esc = None
+        try:
+            holder["sub"] = rx.from_iterable(gen()).subscribe(on_next, lambda e: got.append("E"), lambda: got.append("C"), scheduler=s)
+            s.advance_to(50.0)
+        except Exception as e:  # noqa: BLE001
+            esc = f"{type(e).__name__}: {e}"
+        want_got, want_pulls = c["xs"][:c["at"] + 1], list(range(c["at"] + 1))
+        ok = got == want_got and pulls == want_pulls and not esc
+        return None if ok else {"got": {"received": got, "items pulled from the user's iterator": pulls},
+                                "expected": {"received": want_got, "items pulled from the user's iterator": want_pulls}, "escaped": esc}
     if f == "return_value":
         out, esc = record(lambda s: rx.return_value(c["v"]))
         want = [("N", c["v"]), ("C",)]
